@@ -211,6 +211,29 @@ var SyncCallbacks = map[string]bool{
 	"(*expvar.Map).Do": true,
 }
 
+// isSyncTaker: the call runs its function argument(s) now, on this goroutine:
+// one of the listed higher-order functions, or any iterator handed the body of
+// a range-over-func loop (the language runs the loop body only while the
+// iterator call is in progress).
+func isSyncTaker(c *ssa.CallCommon) bool {
+	if g := ir.CalleeThroughBound(c); g != nil && SyncCallbacks[ir.FullName(g)] {
+		return true
+	}
+	for _, a := range c.Args {
+		var fn *ssa.Function
+		switch x := a.(type) {
+		case *ssa.MakeClosure:
+			fn, _ = x.Fn.(*ssa.Function)
+		case *ssa.Function:
+			fn = x
+		}
+		if fn != nil && strings.Contains(fn.Synthetic, "range-over-func") {
+			return true
+		}
+	}
+	return false
+}
+
 type Analysis struct {
 	P     *ir.Prog
 	Funcs map[*ssa.Function]*FuncInfo
@@ -471,7 +494,7 @@ func (a *Analysis) onlySyncCallback(f *ssa.Function) bool {
 					if c.Value == ssa.Value(mc) {
 						continue
 					}
-					if g := ir.CalleeThroughBound(c); g != nil && SyncCallbacks[ir.FullName(g)] {
+					if isSyncTaker(c) {
 						continue
 					}
 					// a private wrapper that only hands the function on to such a taker (or
@@ -606,7 +629,7 @@ func (a *Analysis) onlyRunsParam(g *ssa.Function, idx, depth int) bool {
 		if c.Value == ssa.Value(par) {
 			continue
 		}
-		if h := ir.CalleeThroughBound(c); h != nil && SyncCallbacks[ir.FullName(h)] {
+		if isSyncTaker(c) {
 			continue
 		}
 		h := c.StaticCallee()
@@ -886,6 +909,20 @@ func (a *Analysis) applyCall(f *ssa.Function, st State, ci ssa.CallInstruction, 
 		if op == "lock" {
 			st.add(Held, lp)
 			st.del(NotHeld, lp)
+			// what was learnt about the owner's fields before the lock was taken (a test whose
+			// outcome was computed in an earlier critical section and branched on after its
+			// unlock) may no longer hold: another goroutine can have run in between
+			// (not when another lock of the same owner is already held: a second, inner lock
+			// does not open the critical section the facts were established in)
+			inner := false
+			for f := range st {
+				if f.K == Held && f.P.Owner == lp.Owner && f.P != lp {
+					inner = true
+				}
+			}
+			if !inner {
+				st.killFieldFactsOfOwner(lp.Owner)
+			}
 		} else {
 			st.del(Held, lp)
 			st.add(NotHeld, lp)
@@ -897,7 +934,7 @@ func (a *Analysis) applyCall(f *ssa.Function, st State, ci ssa.CallInstruction, 
 		return
 	}
 	var gs []*ssa.Function
-	if g := ir.CalleeThroughBound(c); g != nil && SyncCallbacks[ir.FullName(g)] {
+	if isSyncTaker(c) {
 		// the function argument runs now, on this goroutine
 		for _, arg := range c.Args {
 			if _, isFn := arg.Type().Underlying().(*types.Signature); !isFn {
